@@ -2,7 +2,6 @@ use std::{hint::unreachable_unchecked, sync::Arc};
 
 use arrayvec::ArrayVec;
 use derive_more::{Constructor, From};
-use itertools::Itertools;
 use unchecked_unwrap::UncheckedUnwrap;
 
 use crate::frontend::{ast::*, lexer::*};
@@ -269,9 +268,11 @@ impl<'a> Parser<'a> {
     }
 
     fn match_until_next(&mut self, token: TokenType) -> Option<Token<'a>> {
-        self.lexer
-            .take_while_ref(|tok| tok.id != token)
-            .for_each(drop);
+        // never ask the lexer for a token past the end of input: that would move its
+        // current line past a multi-line comment that ends the input
+        while self.current().filter(|tok| tok.id != token).is_some() {
+            self.lexer.next();
+        }
         self.current()
     }
 
@@ -813,8 +814,10 @@ impl<'a> Parser<'a> {
                     PoeticNumberLiteralElem::WordSuffix(tok.spelling.into()),
                 )),
                 (TokenType::Minus, "-") => {
+                    // the line of the hyphen: reading on to the end of input may pass a multi-line comment
+                    let line = myself.current_line();
                     let next_token = myself.lexer.next().ok_or_else(|| {
-                        myself.new_parse_error(ParseErrorCode::PoeticLiteralEndingWithHyphen)
+                        ParseError::new(ParseErrorCode::PoeticLiteralEndingWithHyphen, line.into())
                     })?;
                     if is_word(next_token.spelling) {
                         Ok(Some(PoeticNumberLiteralElem::WordSuffix(
